@@ -46,6 +46,11 @@ class SampleFile:
     semi: int = 0
     loops: List[Loop] = field(default_factory=list)
     kind: str = "sample"
+    count: Optional[int] = None  # the header's word-count field when it is NOT the number of stored words (S155):
+    # the played window is given by the markers alone, the count is only shown
+
+    def count_field(self) -> int:
+        return len(self.words) if self.count is None else self.count
 
     def content(self) -> bytes:
         end = len(self.words) if self.end is None else self.end
@@ -55,7 +60,7 @@ class SampleFile:
         h += bytes(4)
         h += struct.pack("<Bbb", self.loop_type, self.cents, self.semi)
         h += bytes(4)
-        h += struct.pack("<III", len(self.words), self.start, end)
+        h += struct.pack("<III", self.count_field(), self.start, end)
         loops = list(self.loops) + [Loop()] * (8 - len(self.loops))
         for l in loops[:8]:
             h += struct.pack("<IHIH", l.at, l.fine, l.coarse, l.duration)
@@ -367,6 +372,9 @@ def random_disc(rng, small=True) -> Disc:
                     start = end = rng.randint(0, n)
                 files.append(SampleFile(nm, words, start, end, rate=rng.choice([0, 22050, 44100, 48000, rng.randint(1, 65535)]), s3000=rng.random() < 0.5,
                                         note=rng.randint(21, 127), cents=rng.randint(-128, 127), semi=rng.randint(-50, 50)))
+                if rng.random() < 0.3:
+                    e_ = n if end is None else end
+                    files[-1].count = rng.choice([e_ - start, max(0, e_ - 1), start, 0, n + 100])
             if rng.random() < 0.4:
                 stem = rng.choice(["ST PAD", "WIDE", "GTR"])
                 sep = rng.choice(["-", " ", " -"])
